@@ -103,7 +103,7 @@ func clausesMention(c *Contract, p string) bool {
 		}
 	}
 	for _, l := range c.Loops {
-		for _, cl := range append(append([]*Clause{}, l.Invariants...), l.Monotone...) {
+		for _, cl := range append(append(append(append([]*Clause{}, l.Invariants...), l.Monotone...), l.Steps...), l.Entry...) {
 			if hasProp(cl.Props, p) {
 				return true
 			}
